@@ -29,6 +29,7 @@ RULE = (
     "drawn from a 9-key alphabet so overlaps between the four sources are the norm. Non-trivial: at least one opened "
     "run in which some key is supplied by >= 2 sources with different values (precedence observable), or a rejected "
     "attempt followed by another attempt. Distinct = distinct canonical JSON of the case."
+    " Some calls contain an 'intruder': RE(other_plan, **kw) invoked from a document callback while the call runs; it must be refused and leave no trace."
 )
 ASSUMPTIONS = [
     "metadata keys are strings without '.' or '/', never 'uid' or 'time' (compose_run passes md as **kwargs next to uid/time)",
